@@ -287,6 +287,11 @@ EvalGamma(r) ==
        THEN <<Out(r, "C02.text_parses_to_reference_tree",
                   IF r.f = r.exp THEN OkT ELSE BadT([note |-> "the parser groups the formula differently from the sigma_0 grammar", reference |-> r.exp]), "")>>
        ELSE <<Skip(r, "C02.text_parses_to_reference_tree", "no reference tree")>>
+  ELSE IF Prop = "SELF"   \* design check of the reference gamma (Translations.tla) and anthem against it
+  THEN LET keys == FreeKeys(<<r.f, r.g>>)
+           ref == RefGamma(r.f)
+       IN <<Out(r, "SELF.reference_gamma_reduces_ht_to_classical", OverEnvs(keys, LAMBDA e : GammaEnum(Ground(r.f, e), Ground(ref, e), r.preds, e)), ""),
+            Out(r, "SELF.anthem_vs_reference_gamma", OverEnvs(keys, LAMBDA e : CLEquiv(Ground(r.g, e), Ground(ref, e), e)), "")>>
   ELSE
   LET keys == FreeKeys(<<r.f, r.g>>)
       tally == OverEnvs(keys, LAMBDA e : GammaEnum(Ground(r.f, e), Ground(r.g, e), r.preds, e))
